@@ -12,6 +12,7 @@ import props_c17
 import props_c20
 import props_c12
 import props_c18
+import props_c07
 import props_c19
 import vcheck
 from vcheck import Check, log
@@ -240,6 +241,7 @@ PROPS = {
 
 
 PROPS["C18"] = props_c18.SPEC
+props_c07.extend(PROPS["C07"])
 PROPS["C11"] = props_c11.SPEC
 PROPS["C12"] = props_c12.SPEC
 PROPS["C10"] = props_c10.SPEC_C10
